@@ -309,11 +309,20 @@ func EmbedVariants(forest []*Node, o EmitOpts) []Variant {
 				d := cloneDecls(base)
 				emb := StructDecl{Name: "E1", Fields: append([]string{}, base[di].Fields[i:j]...)}
 				nf := append([]string{}, base[di].Fields[:i]...)
-				nf = append(nf, "E1")
+				// the embedded field itself may carry tags: embedding stays inlining
+				// (rotating: none, a parquet name tag, a json-only tag)
+				line, style := "E1", "untagged"
+				switch (di + i + j) % 3 {
+				case 1:
+					line, style = "E1 `parquet:\"e1x\"`", "parquet_name_tag"
+				case 2:
+					line, style = "E1 `json:\"e1j,omitempty\"`", "json_tag"
+				}
+				nf = append(nf, line)
 				nf = append(nf, base[di].Fields[j:]...)
 				d[di].Fields = nf
 				d = append(d, emb)
-				out = append(out, Variant{Kind: "embed", Desc: fmt.Sprintf("%s[%d:%d]", base[di].Name, i, j), Depth: depthOf(base[di].Context), Ctx: base[di].Context, Code: Render(d, nil)})
+				out = append(out, Variant{Kind: "embed", Desc: fmt.Sprintf("%s[%d:%d]", base[di].Name, i, j), Depth: depthOf(base[di].Context), Ctx: base[di].Context, Forms: []string{"embed_" + style}, Code: Render(d, nil)})
 			}
 		}
 	}
